@@ -19,6 +19,8 @@ mod kzg10;
 #[cfg(feature = "alloc")]
 pub(crate) use kzg10::AggregateProof;
 pub(crate) use kzg10::Commitment;
+#[cfg(plonk_verif)]
+pub(crate) use kzg10::proof::Proof as VerifKzgProof;
 #[cfg(feature = "alloc")]
 pub use kzg10::PublicParameters;
 #[cfg(feature = "alloc")]
